@@ -78,7 +78,9 @@ type c06LogHook struct {
 	panics []string
 }
 
-func (h *c06LogHook) Levels() []logrus.Level { return []logrus.Level{logrus.ErrorLevel, logrus.PanicLevel, logrus.FatalLevel} }
+func (h *c06LogHook) Levels() []logrus.Level {
+	return []logrus.Level{logrus.ErrorLevel, logrus.PanicLevel, logrus.FatalLevel}
+}
 func (h *c06LogHook) Fire(e *logrus.Entry) error {
 	h.mu.Lock()
 	defer h.mu.Unlock()
